@@ -60,6 +60,10 @@ type Interp struct {
 	lastPanicStack string
 	inErrorf       int
 	opaqueCount    int
+	conc           *concState
+	curFrame       *frame
+	events         []string
+	raceOff        int
 
 	// accumulated over all paths of this worker
 	stats     *Stats
@@ -570,6 +574,10 @@ func (in *Interp) inputTerms() []*smt.Term {
 
 func (in *Interp) buildModel(m map[*smt.Term]interface{}) map[string]interface{} {
 	out := map[string]interface{}{}
+	if len(in.events) > 0 {
+		// order of the harness-level events on this path: steers the native replay
+		out["__events"] = map[string]interface{}{"kind": "events", "v": append([]string{}, in.events...)}
+	}
 	for _, iv := range in.inputs {
 		switch iv.Kind {
 		case "strn":
@@ -791,12 +799,16 @@ func (in *Interp) RunPath(entry *ssa.Function, prefix []int) (res PathResult) {
 	in.lastPanicStack = ""
 	in.inErrorf = 0
 	in.opaqueCount = 0
+	in.conc = nil
+	in.events = nil
+	in.raceOff = 0
 	if in.ctx.NumTerms() > 400000 {
 		in.ctx = smt.NewCtx()
 	}
 
 	defer func() {
 		r := recover()
+		in.concShutdown()
 		res.Forks = in.forks
 		res.Findings = in.findings
 		res.Steps = in.steps
@@ -822,6 +834,21 @@ func (in *Interp) RunPath(entry *ssa.Function, prefix []int) (res PathResult) {
 		case budgetPanic:
 			res.Outcome = "budget"
 			res.Detail = p.msg + " [" + stack + "]"
+		case deadlockPanic:
+			// every goroutine of the program under test is blocked for ever
+			f := Finding{Kind: "deadlock", Msg: "deadlock: " + p.msg, Decisions: append([]int{}, in.taken...), Stack: stack}
+			rr, m, err := in.solver.Check(in.pc, in.inputTerms())
+			if err == nil && rr == smt.Sat {
+				f.Model = in.buildModel(m)
+				res.Findings = append(res.Findings, f)
+				res.Outcome = "violation"
+			} else if rr == smt.Unsat {
+				res.Outcome = "pruned"
+			} else {
+				res.Outcome = "unsupported"
+				res.Detail = "model query for deadlock failed"
+			}
+			res.Detail = f.Msg
 		case targetPanic, runtimeError:
 			// uncaught panic of the program under test
 			msg := ""
